@@ -89,6 +89,46 @@ impl Write for FailingSink {
     fn flush(&mut self) -> std::io::Result<()> { Ok(()) }
 }
 
+/// A sink that never fails but takes at most `max` bytes per call (what a pipe or a socket may do).
+struct ChunkSink { data: Vec<u8>, max: usize }
+impl Write for ChunkSink {
+    fn write(&mut self, buf: &[u8]) -> std::io::Result<usize> {
+        let n = buf.len().min(self.max);
+        self.data.extend_from_slice(&buf[..n]);
+        Ok(n)
+    }
+    fn flush(&mut self) -> std::io::Result<()> { Ok(()) }
+}
+
+fn compile_user_into<W: Write>(system: &[u8], csv: &[u8], w: &mut W) -> Result<Result<(), String>, String> {
+    catch(std::panic::AssertUnwindSafe(|| -> Result<(), String> {
+        let dic = sudachi::dic::DictionaryLoader::read_system_dictionary(system).map_err(|e| format!("{:?}", e))?.to_loaded().ok_or("not loaded")?;
+        let mut b = DictBuilder::new_user(&dic);
+        b.read_lexicon(csv).map_err(|e| format!("{:?}", e))?;
+        b.resolve().map_err(|e| format!("{:?}", e))?;
+        b.compile(w).map_err(|e| format!("{:?}", e))?;
+        Ok(())
+    }))
+}
+
+/// what is read back for the words of user dictionary 1 (same record shape as `readback`)
+fn readback_user(dict: &JapaneseDictionary, nsys: usize, nuser: usize) -> Value {
+    let cm = dict.grammar().conn_matrix();
+    let mut words = Vec::new();
+    for w in 0..nuser {
+        let wid = WordId::new(1, w as u32);
+        let p = dict.lexicon().get_word_param(wid);
+        let wi = dict.lexicon().get_word_info(wid).expect("word info");
+        let mut refs: Vec<Value> = Vec::new();
+        for r in wi.a_unit_split().iter().chain(wi.b_unit_split()).chain(wi.word_structure()) { refs.push(json!([r.dic(), r.word()])); }
+        let u16len = |s: &str| s.chars().map(|c| c.len_utf16()).sum::<usize>();
+        words.push(json!({"lid": p.0, "rid": p.1, "dfwi": wi.dictionary_form_word_id(), "refs": refs,
+            "narr": [wi.a_unit_split().len(), wi.b_unit_split().len(), wi.word_structure().len(), wi.synonym_group_ids().len()],
+            "nstr": [u16len(wi.surface()), u16len(wi.normalized_form()), u16len(wi.reading_form()), wi.head_word_length()]}));
+    }
+    json!({"nl": cm.num_left(), "nr": cm.num_right(), "nsys": nsys, "nuser": nuser, "user": true, "words": words})
+}
+
 fn compile_into<W: Write>(csv: &[u8], matrix: &[u8], w: &mut W) -> Result<Result<(), String>, String> {
     catch(std::panic::AssertUnwindSafe(|| -> Result<(), String> {
         let mut b = DictBuilder::new_system();
@@ -179,7 +219,50 @@ pub fn run(args: &[String]) -> i32 {
                 let res = match r { Err(_) => "panic", Ok(Err(_)) => "err", Ok(Ok(())) => "ok" };
                 tr.emit(json!({"ev": "compile", "run": run, "res": res, "fail_at": k}));
             }
+            // a sink that takes only part of what it is offered, without ever failing: success still means that the sink holds a valid dictionary
+            for chunk in [1usize, 7, 64] {
+                run += 1;
+                tr.emit(json!({"ev": "case", "run": run, "cls": cls, "sink_chunk": chunk}));
+                let mut sink = ChunkSink { data: Vec::new(), max: chunk };
+                match compile_into(csv.as_bytes(), mtext.as_bytes(), &mut sink) {
+                    Err(msg) => { tr.emit(json!({"ev": "compile", "run": run, "res": "panic", "fail_at": -1, "msg": msg})); continue; }
+                    Ok(Err(e)) => { tr.emit(json!({"ev": "compile", "run": run, "res": "err", "fail_at": -1, "msg": e.chars().take(160).collect::<String>()})); continue; }
+                    Ok(Ok(())) => tr.emit(json!({"ev": "compile", "run": run, "res": "ok", "fail_at": -1, "nbytes": sink.data.len()})),
+                }
+                let got = sink.data;
+                match catch(std::panic::AssertUnwindSafe(|| dicts::load(&cfg, &res, got, vec![]).map(|d| { let rb = readback(&d); (rb, probe(d, "東京")) }))) {
+                    Ok(Ok((rb, pr))) => { tr.emit(json!({"ev": "readback", "run": run, "res": "ok", "rb": rb})); tr.emit(json!({"ev": "probe", "run": run, "res": pr})); }
+                    Ok(Err(e)) => tr.emit(json!({"ev": "readback", "run": run, "res": "err", "msg": format!("{:?}", e)})),
+                    Err(m) => tr.emit(json!({"ev": "readback", "run": run, "res": "panic", "msg": m})),
+                }
+            }
         }
+    }
+    // user dictionaries over system dictionaries whose matrix is not square: every pair of ids around both dimensions
+    for (nl, nr) in [(2usize, 3usize), (3, 2), (1, 4), (4, 1), (2, 2)] {
+        let mut mtext = format!("{} {}\n", nl, nr);
+        for a in 0..nl { for b in 0..nr { mtext.push_str(&format!("{} {} {}\n", a, b, (a * 7 + b) as i64 - 3)); } }
+        let sys_csv = "京,0,0,5000,京,名詞,普通名詞,一般,*,*,*,キョウ,京,*,A,*,*,*,*\n";
+        let mut sys = Vec::new();
+        if !matches!(compile_into(sys_csv.as_bytes(), mtext.as_bytes(), &mut sys), Ok(Ok(()))) { continue; }
+        let top = nl.max(nr) as i64 + 1;
+        for lid in 0..=top { for rid in 0..=top {
+            run += 1;
+            let csv = format!("東京,{l},{r},-3000,東京,名詞,普通名詞,一般,*,*,*,トウキョウ,東京,*,A,*,*,*,*\n", l = lid, r = rid);
+            tr.emit(json!({"ev": "case", "run": run, "cls": {"user_over": [nl, nr], "lid": lid, "rid": rid}}));
+            let mut ub = Vec::new();
+            match compile_user_into(&sys, csv.as_bytes(), &mut ub) {
+                Err(msg) => { tr.emit(json!({"ev": "compile", "run": run, "res": "panic", "fail_at": -1, "msg": msg})); continue; }
+                Ok(Err(e)) => { tr.emit(json!({"ev": "compile", "run": run, "res": "err", "fail_at": -1, "msg": e.chars().take(160).collect::<String>()})); continue; }
+                Ok(Ok(())) => tr.emit(json!({"ev": "compile", "run": run, "res": "ok", "fail_at": -1, "nbytes": ub.len()})),
+            }
+            let sysc = sys.clone();
+            match catch(std::panic::AssertUnwindSafe(|| dicts::load(&cfg, &res, sysc, vec![ub]).map(|d| { let rb = readback_user(&d, 1, 1); (rb, probe(d, "東京")) }))) {
+                Ok(Ok((rb, pr))) => { tr.emit(json!({"ev": "readback", "run": run, "res": "ok", "rb": rb})); tr.emit(json!({"ev": "probe", "run": run, "res": pr})); }
+                Ok(Err(e)) => tr.emit(json!({"ev": "readback", "run": run, "res": "err", "msg": format!("{:?}", e)})),
+                Err(m) => tr.emit(json!({"ev": "readback", "run": run, "res": "panic", "msg": m})),
+            }
+        } }
     }
     let n = tr.finish();
     println!("{}", json!({"events": n, "cases": run, "inputs": lines.len()}));
